@@ -90,6 +90,9 @@ def setup(fast_poll=True):
     R.ThreadPoolExecutor = TrackedExecutor
     if fast_poll:
         install_fast_poll(0.001)
+    # thread hand-offs between the event loop, executor threads and the chunk producer otherwise wait
+    # for the 5 ms GIL switch interval; only timing changes
+    sys.setswitchinterval(0.0005)
     _setup_done = True
 
 
